@@ -463,6 +463,8 @@ def cell_label(cls, par, p):
     c0 = np.array(par["vertices"], float).mean(axis=0) if "vertices" in par else 0
     d = np.linalg.norm(np.array(p) - c0) / size
     where = "far" if d > 10 else ("mid" if d > 1.5 else "near")
+    if cls in ("Cylinder", "CylinderSegment", "Circle") and np.hypot(p[0], p[1]) < 1e-2 * size:
+        where = "axis-" + where    # "close to the z-axis in cylindrical symmetries" (a zone the documentation names)
     if cls in MAGNETS:
         where += "-inside" if geo.classify(cls, par, [p])[0] == 1 else "-outside"
     return where
